@@ -52,7 +52,17 @@ func (m *machine) eqnil(t types.Type, x, y value) value {
 	case *types.Map:
 		return (x.(*mapV) != nil) == (y.(*mapV) != nil)
 	case *types.Slice:
-		return (x.([]value) != nil) == (y.([]value) != nil)
+		// opaque byte slices (json model text, document streams) are never nil
+		nonNil := func(v value) bool {
+			switch v := v.(type) {
+			case []value:
+				return v != nil
+			case *symBytes, *docBytes:
+				return true
+			}
+			panic(engineErr(fmt.Sprintf("nil comparison of an unexpected slice representation %T", v)))
+		}
+		return nonNil(x) == nonNil(y)
 	case *types.Signature:
 		return isNilFunc(x) == isNilFunc(y)
 	}
